@@ -257,3 +257,42 @@ def finish(ctx, t0, error=None, selftest=None, quiet=False):
         print('OK property=%s tier=%s obligations=%d discharged=%d known_findings=%d rules=%d wall=%.2fs'
               % (prop, ctx.tier, obligations, discharged, len(printed_known), len(ctx.rules), time.time() - t0))
     return 0
+
+
+class BorrowedCtx(object):
+    """A rule of another property that is a necessary condition of this one as well is run here under this property's own
+    rule identifier (the same source construct breaks both behaviours; each property's check must report it on its own)."""
+
+    def __init__(self, ctx, rename):
+        self._ctx = ctx
+        self._rename = rename          # {'C03.e': 'C05.e'}
+
+    def _r(self, rule):
+        for a, b in self._rename.items():
+            if rule == a or rule.startswith(a):
+                return b + rule[len(a):]
+        return '%s<%s' % (self._ctx.prop, rule)
+
+    def describe(self, rule, what, floor=None):
+        return self._ctx.describe(self._r(rule), what + ' [shared with %s]' % rule, floor)
+
+    def ob(self, rule, *a, **k):
+        return self._ctx.ob(self._r(rule), *a, **k)
+
+    def idiom(self, rule, *a, **k):
+        return self._ctx.idiom(self._r(rule), *a, **k)
+
+    def report(self, rule, *a, **k):
+        return self._ctx.report(self._r(rule), *a, **k)
+
+    def exception(self, rule, *a, **k):
+        return self._ctx.exception(self._r(rule), *a, **k)
+
+    def unmodelled(self, rule, *a, **k):
+        return self._ctx.unmodelled(self._r(rule), *a, **k)
+
+    def unresolved(self, rule, *a, **k):
+        return self._ctx.unresolved(self._r(rule), *a, **k)
+
+    def __getattr__(self, k):
+        return getattr(self._ctx, k)
